@@ -211,10 +211,10 @@ def plan_for(prop, tier, seed):
         p["require_cells"] = ["arm:bool", "arm:char", "arm:String", "arm:LeanString", "arm:generic", "arm:f32", "arm:f64", "generic_fmt_error_positions"]
     elif n == 16:
         p["rule"] = ("from_utf8/from_utf8_lossy/from_utf16/from_utf16_lossy vs their String counterparts (acceptance and text; error values not compared) on ALL sequences up to the stated length over the 16-symbol class alphabet and the 25-symbol extended alphabet, the same sequences embedded after 12/15/16/17-byte valid prefixes (decoder state straddles the inline limit and the with_capacity(buf.len()) guess), all u16 sequences over {0,41,D7FF,D800,DBFF,DC00,DFFF,E000,FFFD,FFFF}, plus long nearly-valid inputs made by mutating valid text. distinct_nontrivial = distinct (outcome class, length) cells")
-        jobs = [eng("native-rel", "utf", ["--shim", "off", "--threads", 16] + (["--min-alpha-len", 5, "--ext-alpha-len", 4, "--u16-len", 5, "--long", 200000] if quick else ["--min-alpha-len", 7, "--ext-alpha-len", 6, "--u16-len", 6, "--prefixed-len", 5, "--long", 3000000]), 1, seed, weight=5, timeout=10000),
-                eng("native-rel", "utf", ["--shim", "shadow", "--threads", 1, "--min-alpha-len", 3, "--ext-alpha-len", 2, "--u16-len", 3, "--prefixed-len", 3, "--long", 20000], 4, seed + 1, weight=3, label="native-rel(shadow-heap)"),
-                eng("native-dbg", "utf", ["--shim", "shadow", "--threads", 16, "--min-alpha-len", 4, "--ext-alpha-len", 3, "--u16-len", 4, "--long", 20000], 1, seed + 2, weight=3)]
-        jobs += [eng("miri", "utf", ["--min-alpha-len", 2, "--ext-alpha-len", 1, "--u16-len", 2, "--prefixed-len", 1, "--long", 12 if quick else 200], 4, seed + 3, **MT)]
+        jobs = [eng("native-rel", "utf", ["--shim", "off", "--threads", 16] + (["--min-alpha-len", 5, "--ext-alpha-len", 4, "--u16-len", 5, "--long", 200000, "--pos-max", 1100] if quick else ["--min-alpha-len", 7, "--ext-alpha-len", 6, "--u16-len", 6, "--prefixed-len", 5, "--long", 3000000, "--pos-max", 9000]), 1, seed, weight=5, timeout=10000),
+                eng("native-rel", "utf", ["--shim", "shadow", "--threads", 1, "--min-alpha-len", 3, "--ext-alpha-len", 2, "--u16-len", 3, "--prefixed-len", 3, "--long", 20000, "--pos-max", 300], 4, seed + 1, weight=3, label="native-rel(shadow-heap)"),
+                eng("native-dbg", "utf", ["--shim", "shadow", "--threads", 16, "--min-alpha-len", 4, "--ext-alpha-len", 3, "--u16-len", 4, "--long", 20000, "--pos-max", 600], 1, seed + 2, weight=3)]
+        jobs += [eng("miri", "utf", ["--min-alpha-len", 2, "--ext-alpha-len", 1, "--u16-len", 2, "--prefixed-len", 1, "--long", 12 if quick else 200, "--pos-max", 6 if quick else 40], 4, seed + 3, **MT)]
         p["jobs"] = jobs
         p["exhaustive_when"] = "utf"
     elif n == 17:
@@ -395,6 +395,14 @@ def aggregate(prop, plan, results):
                     extra_cov.setdefault(key, [])
                     if ec.get("exhaustive_scope") and ec["exhaustive_scope"] not in extra_cov[key] and ec["exhaustive"]:
                         extra_cov[key].append(ec["exhaustive_scope"])
+            cr = s.get("cross")
+            if cr:
+                for k, v in cr.get("counts", {}).items():
+                    cross[k] = cross.get(k, 0) + v
+                for sm in cr.get("samples", []):
+                    xs = extra_cov.setdefault("cross_property_samples", [])
+                    if len(xs) < 6:
+                        xs.append(sm)
             if "swallowed_hint_failures" in s:
                 counters["hint_reservation_failures_ignored_by_design"] = counters.get("hint_reservation_failures_ignored_by_design", 0) + s["swallowed_hint_failures"]
     if plan.get("digest_groups"):
